@@ -49,7 +49,7 @@ def blank_result():
 
 
 def violation(res, clause, sig, detail):
-    res["violations"].append({"clause": clause, "sig": sig, "detail": str(detail)[:1500]})
+    res["violations"].append({"clause": clause, "sig": sig, "detail": str(detail)[: int(os.environ.get("VERIF_DETAIL_MAX", "1500"))]})
 
 
 # --------------------------------------------------------------------------- env
